@@ -66,9 +66,9 @@ func hasDurableState(storage wal.WAL) bool {
 	return false
 }
 
-func startRaftNode(id uint64, nodeIds []uint64, storage wal.WAL, logger *log.Entry) (etcdRaft.Node, error) {
+func startRaftNode(transport *RaftTransport, nodeIds []uint64, storage wal.WAL, logger *log.Entry) (etcdRaft.Node, error) {
 	raftConfig := &etcdRaft.Config{
-		ID:              id,
+		ID:              transport.NodeId(),
 		ElectionTick:    10,
 		HeartbeatTick:   1,
 		Storage:         storage,
@@ -80,7 +80,13 @@ func startRaftNode(id uint64, nodeIds []uint64, storage wal.WAL, logger *log.Ent
 	if len(nodeIds) > 0 && !hasDurableState(storage) {
 		var peers []etcdRaft.Peer
 		for _, nodeId := range nodeIds {
-			peers = append(peers, etcdRaft.Peer{ID: nodeId})
+			peer := etcdRaft.Peer{ID: nodeId}
+			if nodeId == transport.NodeId() {
+				// The bootstrap membership entry is the only durable record of
+				// this node's address for members that replay the log.
+				peer.Context = []byte(transport.Address())
+			}
+			peers = append(peers, peer)
 		}
 		return etcdRaft.StartNode(raftConfig, peers), nil
 	} else {
@@ -96,7 +102,7 @@ func NewRaftGroup(id uuid.UUID, nodeIds []uint64, storage wal.WAL, transport *Ra
 	})
 
 	ctx, ctxCancel := context.WithCancel(context.Background())
-	raftNode, err := startRaftNode(transport.NodeId(), nodeIds, storage, logger)
+	raftNode, err := startRaftNode(transport, nodeIds, storage, logger)
 	if err != nil {
 		return nil, err
 	}
